@@ -390,6 +390,7 @@ def _after_r121(ctx, c, ci, G, isG):
     # R12.15: the state save_state hands out is a Random.getstate() value (R12.4); restore_state, interpreted on the contract of that value,
     # must not refuse it (E14, pdsa/contract.py)
     from ..contract import check_accepts, Unsupported as _U14
+    ctx.trust('random.Random.getstate() returns (3, 624 words in [0, 2**32) followed by a position in [1, 624], None or a float) for every state reached by seeding and drawing (CPython _randommodule.c)')
     ctx.rule('R12.15', f'{c}.restore_state accepts every state {c}.save_state can hand out: interpreted on the contract of Random.getstate() -- '
                        f'(3, 624 words in [0, 2**32) + position in [1, 624], None or float) -- no refusal is reached through decided conditions')
     try:
